@@ -4,6 +4,7 @@ package style
 import (
 	"encoding/xml"
 	"fmt"
+	"sort"
 )
 
 // StyleType 样式类型
@@ -294,6 +295,8 @@ func (sm *StyleManager) GetAllStyles() []*Style {
 	for _, style := range sm.styles {
 		styles = append(styles, style)
 	}
+	// 按样式ID排序，保证每次序列化的顺序一致
+	sort.Slice(styles, func(i, j int) bool { return styles[i].StyleID < styles[j].StyleID })
 	return styles
 }
 
